@@ -193,9 +193,10 @@ def h7(prog, tier="quick"):
         return h
     hooks = {
         "ctor:coverage": lambda ev, o, a: mkcov([]) if not a else a[0].copy_value(),
-        "ctor:value_aset": lambda ev, o, a: VAset(a[0].copy_value(), a[1]),
-        "ctor:value_cst": lambda ev, o, a: VCst(a[0], a[1]),
-        "ctor:constant": lambda ev, o, a: Cst(a[0], a[1]),
+        "ctor:cov_range": lambda ev, o, a: a[0].copy_value() if a and isinstance(a[0], Struct) else Struct("cov_range", {"start": None, "length": None}),
+        "ctor:value_aset": lambda ev, o, a: a[0] if isinstance(a[0], VAset) else VAset(a[0].copy_value(), a[1]),
+        "ctor:value_cst": lambda ev, o, a: a[0] if isinstance(a[0], VCst) else VCst(a[0], a[1]),
+        "ctor:constant": lambda ev, o, a: a[0] if isinstance(a[0], Cst) else Cst(a[0], a[1]),
         "ctor:pred_result": lambda ev, o, a: ("enum", "yes" if a[0] else "no", None) if isinstance(a[0], bool) else a[0],
         "std::make_unique<value_cst*": lambda ev, o, a: VCst(a[0], a[1]),
         "std::make_unique<value_aset*": lambda ev, o, a: VAset(a[0].copy_value(), a[1]),
